@@ -534,6 +534,9 @@ func (p *Parser) parseBuffer(buf []byte, last bool) (err error) {
 			}
 			off += i
 		case valPlus:
+			if !p.prevIsString() {
+				return p.newError(off, "unexpected character '+'")
+			}
 			p.mode = plusMap
 			// Store additional state (plus) to be used later in addString()
 			// instead of creating another set of modes for this semi-rare
@@ -811,6 +814,24 @@ func (p *Parser) addTokenWith(s string, off int) {
 	default:
 		p.stack = append(p.stack, s)
 	}
+}
+
+// prevIsString returns true if the most recent value is a string, the only
+// kind of value a + can follow.
+func (p *Parser) prevIsString() bool {
+	if len(p.stack) == 0 {
+		return false
+	}
+	if 0 < len(p.starts) && p.starts[len(p.starts)-1] == -1 { // object
+		obj, _ := p.stack[len(p.stack)-1].(map[string]any)
+		if obj == nil {
+			return false
+		}
+		_, ok := obj[string(p.lastKey)].(string)
+		return ok
+	}
+	_, ok := p.stack[len(p.stack)-1].(string)
+	return ok
 }
 
 func (p *Parser) addString(s string, off int) {
